@@ -27,8 +27,64 @@ def dispatch(j):
     return REGISTRY[j["kind"]](j)
 
 
+CURRENT = {"col": None, "out": None}
+
+
+def panic(reason):
+    """Write what the current collector holds and leave the process (used when the scheduler is hung)."""
+    import json
+    import os
+
+    col = CURRENT["col"]
+    res = col.result() if col is not None else {}
+    res.setdefault("inconclusive", [])
+    if reason:
+        res["inconclusive"].append(reason)
+    res["reach"] = dict(B.REACH)
+    res["panic"] = True
+    if CURRENT["out"]:
+        with open(CURRENT["out"], "w") as f:
+            json.dump(res, f, default=repr)
+    os._exit(0)
+
+
+def on_hang(label, thread, waited):
+    """Watchdog = trigger, stack = verdict (DESIGN 2.9): sample the hung client thread 20x."""
+    import sys
+    import time
+    import traceback
+
+    samples = []
+    for _ in range(20):
+        fr = sys._current_frames().get(thread)
+        st = traceback.extract_stack(fr) if fr else []
+        tw = [x for x in st if "/tawazi/" in x.filename]
+        top = st[-1] if st else None
+        in_selector = any("selectors" in x.filename for x in st[-2:])
+        in_harness = bool(st) and "/twzmon/" in st[-1].filename
+        if tw and not in_selector and not in_harness:
+            samples.append("tawazi:%s:%d" % (tw[-1].name, tw[-1].lineno))
+        elif in_selector:
+            samples.append("idle-selector")
+        else:
+            samples.append("other:%s" % (top.name if top else "?"))
+        time.sleep(0.01)
+    col = CURRENT["col"]
+    from collections import Counter as _C
+
+    cnt = dict(_C(samples))
+    if col is not None and all(x.startswith("tawazi:") for x in samples):
+        w = dict(operation=label, waited_s=round(waited, 1), client_thread_stack_samples=cnt)
+        col.violation("C09", "scheduler_thread_stuck_inside_tawazi", w, {"kind": "hang", "label": label})
+        if label.startswith(("await", "gather")):
+            col.violation("C17", "event_loop_blocked_by_scheduler", w, {"kind": "hang", "label": label})
+        panic(None)
+    panic("operation %r hung for %.0fs; client thread not inside tawazi (%s)" % (label, waited, cnt))
+
+
 class Collector:
     def __init__(self, max_per_mech=3, max_samples=3):
+        CURRENT["col"] = self
         self.evaluations = 0
         self.hashes = set()
         self.counters = Counter()
